@@ -10,7 +10,7 @@ def main():
     base = json.load(open("/root/.vp/BASELINE.json"))
     with tempfile.TemporaryDirectory() as d:
         xml = os.path.join(d, "junit.xml")
-        env = dict(os.environ, PYTHONDONTWRITEBYTECODE="1")
+        env = dict(os.environ, PYTHONDONTWRITEBYTECODE="1", PYTHONPATH=os.path.abspath(repo))
         env.pop("PY_TRIE_VERIF", None)
         subprocess.run(
             ["/venv/bin/python", "-m", "pytest", "-ra", "-q", "-p", "no:cacheprovider",
